@@ -150,6 +150,11 @@ impl ProgressStyle {
             "at least 2 progress chars required"
         );
         self.char_width = width(&self.progress_chars);
+        // The bar is laid out in cells of this width, which must take up room
+        assert!(
+            self.char_width > 0,
+            "progress chars must not be zero-width characters"
+        );
         self
     }
 
